@@ -128,6 +128,7 @@ extern "C" void harness(void)
   {
     // the newer one rejected the call through its WITH clauses: the older one handles it, the newer one is untouched
     VCLAIM(8, !e->is_satisfied() && !e->is_saturated(), "C08.rejecting_expectation_untouched");
+    VCLAIM(1, !e->is_satisfied() && !e->is_saturated() && vf_logv == want, "C01.expectation_with_a_failing_WITH_does_not_take_the_call");
 #if VF_MODE == 3
     VCLAIM(8, vf_old_ran == 1, "C08.fallback_side_effect_once");
 #else
